@@ -573,6 +573,9 @@ func ruleHybridBranch(r *Run, k *hybridKind) {
 		}
 		if !a["VQ"] && !a["TQ"] && a["Cn"] {
 			val += "+fill"
+		} else if !a["VQ"] && !a["TQ"] && !a["Cn"] {
+			// filling from an empty candidate list is a no-op: entering the fill loop or skipping it is the same
+			val = val + "|" + val + "+fill"
 		}
 		return val
 	})
@@ -1102,10 +1105,7 @@ func ruleTextRevive(r *Run, k *textKind) {
 		return
 	}
 	// unconditional: reached on every path to a success return
-	esc := reachAvoid(fn, nil, func(in ssa.Instruction) bool {
-		ret, ok := in.(*ssa.Return)
-		return ok && classifyErr(ret) != ErrNonNil
-	}, func(in ssa.Instruction) bool { return in == clear })
+	esc := successEscapesWrap(fn, func(in ssa.Instruction) bool { return in == clear })
 	r.Check(esc == nil, rule, "bm25:clear-mark", w.InstrPos(clear)+" "+name, "every successful Add clears the pending soft-delete mark of its id", "a successful Add can skip clearing the pending soft-delete mark (fresh Add of a marked id stays hidden)")
 }
 
@@ -1155,10 +1155,7 @@ func ruleHybridRemove(r *Run, k *hybridKind) {
 		call, ok := isBuiltinCall(in, "delete")
 		return ok && c.S(call.Call.Args[0]) == "P0.docInfo" && c.S(call.Call.Args[1]) == "P1"
 	}
-	esc := reachAvoid(fn, nil, func(in ssa.Instruction) bool {
-		ret, ok := in.(*ssa.Return)
-		return ok && classifyErr(ret) == ErrNil
-	}, isDel)
+	esc := successEscapes(fn, isDel, nil)
 	r.Check(esc == nil, "C06.RM", "hybrid:remove:forget", site, "every success return follows delete(docInfo, id)", "a success return is reachable without forgetting the id (a second Remove would succeed again)")
 	// each removal is keyed on the flag the add routine sets for that sub-index, and uses the id
 	wantFlag := map[string]string{"P0.vectorIndex": "hasVector", "P0.textIndex": "hasText", "P0.metadataIndex": "hasMetadata"}
